@@ -19,7 +19,8 @@ CHECKS = {
              "(independent two's-complement oracle) and are minimal; the reader maps every non-empty octet string to its "
              "two's-complement value; header/TLV/bool/octet-string round trips for every readable tag, every length < 256^126 and "
              "any trailing bytes (exact consumption); lenient long-form lengths. The model is tied to the code by a correspondence "
-             "run (≈9k requests quick) and the same grid is checked directly against int.to_bytes/from_bytes.",
+             "run (≈9k requests quick) and the same grid is checked directly against int.to_bytes/from_bytes."
+             " Added after the statement audit (Props/C07More): on ARBITRARY input every reader consumes exactly header + declared length, its value depends only on that prefix, and every strict prefix fails with not-enough-data (no over-read).",
         technique="Lean 4 proof (induction on base-256 digits) + model/implementation correspondence",
         ref="DESIGN.md §4 C07",
     ),
@@ -31,7 +32,8 @@ CHECKS.update({
              "trailing bytes, any set of registered custom types and any recursion budget above the filter depth, "
              "decMsg (encMsg m ++ rest) = (fillRaw m, rest); reencode: encMsg (fillRaw m) = encMsg m. The model (encMsg/decMsg, faithful to every "
              "_pack_inner/_unpack_* incl. error classes) is tied to the code by correspondence on ≈6k enc/dec requests and the same messages are "
-             "round-tripped directly on the implementation (field-by-field, ==, exact consumption, re-pack).",
+             "round-tripped directly on the implementation (field-by-field, ==, exact consumption, re-pack)."
+             " Added (Props/SmallMore): decode_encode_any_controls — the same round trip WITHOUT the control domain cut (a generic control carrying a library-known OID comes back as the typed control or is rejected, stated exactly).",
         technique="Lean 4 proof (structural induction on messages/filters, fuel-sufficiency of the reader loops) + correspondence",
         ref="DESIGN.md §4 C01",
     ),
@@ -47,21 +49,24 @@ CHECKS.update({
         text="Lean theorems over the step function of the session model: refinement of the documented automaton for every reachable session "
              "and every call (events computed from call and outcome only), lifted to histories; CLOSED absorbing (no bytes, sends rejected, "
              "input refused); bind gating on client and server; BINDING restricts sends. The one deviation (F-C08c, pinned by the repo's tests) "
-             "is carved out explicitly and proved as known_deviation. Model tied to the code by replaying generated joint histories.",
+             "is carved out explicitly and proved as known_deviation. Model tied to the code by replaying generated joint histories."
+             " Added (Props/C08More, C10More): history refinement with the deviation hypothesis only along the run, and with no hypothesis at all up to BEFORE_OPEN≈OPENED (exact for clients and for any session that has left BEFORE_OPEN); bind gating and the frozen closed session at receive level; acceptance iffs for client requests.",
         technique="Lean 4 proof (refinement + invariants by induction on reachability) + correspondence on generated histories",
         ref="DESIGN.md §4 C08",
     ),
     "C09": dict(
         text="Lean theorems: ids issued over any client history are first, first+1, … (refused calls consume none); returned id = id in the emitted "
              "bytes; searches ⊆ outstanding on every reachable client; a message is accepted iff it is a response whose id is outstanding; "
-             "lifetime of searches vs other operations; a rejected message closes the session.",
+             "lifetime of searches vs other operations; a rejected message closes the session."
+             " Added (Props/C09More): ids are fresh; only a search call enters the search set and only its done message leaves it; for a whole delivery of several messages receive returns them iff the id rule (stated independently) accepts all of them and none is a notice, otherwise protocol error and CLOSED.",
         technique="Lean 4 proof (invariants over reachable states) + correspondence on generated histories",
         ref="DESIGN.md §4 C09",
     ),
     "C10": dict(
         text="Lean theorems: a refused send call leaves the outgoing bytes unchanged and fails with the library error; a server response is "
              "accepted only for an outstanding id; a final response retires it so any second response is rejected with no wire effect; "
-             "entries/references keep it open.",
+             "entries/references keep it open."
+             " Added (Props/C10More): response_accepted_iff (not closed ∧ binding restriction ∧ id outstanding — nothing else), effects of accepted and refused calls on the whole session, and a ghost characterisation of 'outstanding' from calls and outcomes only.",
         technique="Lean 4 proof (case analysis of the step function) + correspondence on generated histories",
         ref="DESIGN.md §4 C10",
     ),
@@ -80,7 +85,8 @@ CHECKS.update({
              "(any cut, headers included); if the single delivery of a byte string returns messages, feeding the same bytes in ANY list of chunks "
              "returns the same messages in the same order with no error and ends in the same session state (residue included), and conversely; the "
              "stream of any well-formed messages parses back to exactly those messages. The aliasing clause (returned messages are self-contained "
-             "values) is outside any value-level model and is decided by the harness probe only (caller's buffer overwritten, messages re-compared).",
+             "values) is outside any value-level model and is decided by the harness probe only (caller's buffer overwritten, messages re-compared)."
+             " Added (Props/C02More): chunked_stream — the property as written, end to end through feed for any chunking of the encodings of well-formed messages the state machine accepts; recv_prefix_waits for any proper prefix of any SEQUENCE-tagged unit, and the exact boundary for other tags.",
         technique="Lean 4 proof (framing lemmas + induction over the chunk list) + correspondence; aliasing probe by harness",
         ref="DESIGN.md §4 C02",
     ),
@@ -89,7 +95,8 @@ CHECKS.update({
              "client's KeyError site is unreachable by the bookkeeping invariant); after an error the state is CLOSED and all further input is "
              "refused; which notification is attached; the server's notice of disconnection is read back by the strict RFC decoder for every "
              "diagnostic text; the client's unbind is well-formed up to known finding F-C05u. The theorem is about the model's inventory of exception "
-             "sites, which the correspondence (exception classes on random/corrupted/nested inputs) attacks.",
+             "sites, which the correspondence (exception classes on random/corrupted/nested inputs) attacks."
+             " Added (Props/C05More): fuel irrelevance of every decoder loop and *_recursion_is_nesting (a recursion error always is real filter nesting beyond the budget); notification_bytes ties the tag receive attaches to octets that decode to the notice of disconnection / an unbind request; recv_error_characterised.",
         technique="Lean 4 proof (totality by case analysis + reachability invariant) + correspondence on exception classes",
         ref="DESIGN.md §4 C05",
     ),
@@ -104,7 +111,8 @@ CHECKS.update({
         text="Lean theorems over the model of the filter text code: for every tree in the text domain (any depth/fan-out, arbitrary value octets) "
              "parse (toText f) = f; unescape inverts escapeValue for every octet string; what escapeValue writes is printable ASCII without ( ) * \\ "
              "plus \\hh escapes (byte class regenerated from the library's escape pattern), and toText is pure printable ASCII — no value content "
-             "can change the shape of a filter.",
+             "can change the shape of a filter."
+             " Added (Props/C13More): toText_is_sentence_iff — the text form is an RFC 4515 sentence (independent grammar relation) exactly on the domain WFText ∧ RFC attributes/oids ∧ every extensible match has an attribute or a rule; raw UTF-8 is NOT required to be escaped by the harness oracle (independent recogniser of the grammar).",
         technique="Lean 4 proof (mutual structural induction on filters; scanner lemmas) + correspondence",
         ref="DESIGN.md §4 C13",
     ),
@@ -112,7 +120,8 @@ CHECKS.update({
         text="Lean theorems: for any string of code points (scalar values and the surrogate-escape code points U+DC80..DCFF) and any recursion budget the parser returns a filter or FilterSyntaxError(offset, length) "
              "with offset+length inside the UTF-8 of the stripped input; scan loops never exhaust their fuel and RecursionError never escapes; "
              "whatever is accepted has pattern-valid attributes/rules, lies in the text domain of C13 and therefore re-parses from its own text. "
-             "Known finding F-C15d (single-arc numeric OIDs accepted; pinned by the repo's tests).",
+             "Known finding F-C15d (single-arc numeric OIDs accepted; pinned by the repo's tests)."
+             " Added (Props/C13More): validAttr_iff (the pattern accepts exactly RFC attribute descriptions plus F-C15d), accepted_rule_char (accepted matching rules deviate from oid exactly by F-C15r — options, pinned by the repo's tests — and F-C15d), and an integer-valued shadow of the parser proving no reported offset/length is ever negative.",
         technique="Lean 4 proof (span/progress invariants by induction on depth and fuel) + correspondence on mutated and random text",
         ref="DESIGN.md §4 C15",
     ),
@@ -138,7 +147,8 @@ CHECKS.update({
              "bytes as an unknown filter / credential choice or as a generic control. The substance — no shared mutable state between Python "
              "objects — cannot be a theorem about a value-level model and is carried by translation validation: interleaved live sessions vs the same "
              "histories alone in fresh interpreters vs the model, re-serialisation of every retained result at the end of an interleaved run, pairs of "
-             "sessions decoding variants of one message (shared decoded objects), plus a direct test of the registration clause in both orders.",
+             "sessions decoding variants of one message (shared decoded objects), plus a direct test of the registration clause in both orders."
+             " Added (Props/SmallMore): register_sets_flag, unregistered_*_any (any registration set with that one flag false), receive-level protocol error for bytes carrying an unregistered custom filter / credential.",
         technique="Lean 4 proof of the model-level statements + translation validation (interleaved vs isolated runs vs model) for the isolation itself",
         ref="DESIGN.md §4 C19",
     ),
@@ -187,7 +197,8 @@ CHECKS.update({
              "messages still in flight (residue ++ pipe ++ unflushed output, which always parse back completely) = messages the peer sent, in order, "
              "as equal values; (2) no protocol error other than after the client's unbind; (3) at quiescence both sides agree on the state class "
              "(BEFORE_OPEN ≈ OPENED) and on the operations in progress. Full byte-granular statement (not only message-granular). Admissibility = "
-             "calls accepted, responses of the matching kind, no server-initiated termination.",
+             "calls accepted, responses of the matching kind, no server-initiated termination."
+             " Added (Props/C11More): witnesses of AdmissibleRun, error_only_at_termination (every step outcome is fine or one of three named termination errors), closed_agreement, and the notice-of-disconnection termination.",
         technique="Lean 4 proof (channel invariant + bookkeeping invariant over ghost logs, induction over the history) + correspondence on joint histories",
         ref="DESIGN.md §4 C11",
     ),
@@ -207,7 +218,8 @@ CHECKS.update({
              "(Props/C18Recv.lean), and the BER filter decoder one proved to make at most n/2 + 1 LDAPFilter.unpack calls (Props/C18Decode.lean); "
              "the three counts are compared with the implementation's (profiler hook) and executed source lines "
              "are checked against 100(n+1)^2+5000 on nested / wide / broken families (filter, schema post-processing, receive). Not covered by a "
-             "theorem: constants of CPython's engine, the cost of one message decode and the schema post-processing (step-counted and timed only).",
+             "theorem: constants of CPython's engine, the cost of one message decode and the schema post-processing (step-counted and timed only)."
+             " Added (Props/SmallMore): explicit numerals for every pattern (every_pattern_explicit: 10934917·(n+1)^3; attribute pattern 347·(n+1)^2), no_unsupported. Timing is measured in CPU seconds with re-measurement; an untakeable measurement is exit 2.",
         technique="Lean 4 proof (cost calculus for backtracking search trees; per-pattern bounds on translated regexes; call-count bound of the filter parser) + translator + deterministic step counts + timing search",
         ref="DESIGN.md STATUS and §4 C18",
     ),
